@@ -987,6 +987,13 @@ theorem F15b_canResume_unsound :
     canResume (f15b { fixResume := true }) 1 8 = false := by
   decide
 
+/-- the two sliding-window sizings of `Init` (variant bit 8; probed from the tree with this very
+    configuration): window 2, 2 sequences, context 16, batch 4.  All theorems above are stated for every
+    `Variant`, hence for both sizings. -/
+theorem swa_capacity_variants :
+    (Causal.init {} (some 2) 2 16 4 1 1 true).cells.length = 8 ∧
+    (Causal.init { perSeqBatch := true } (some 2) 2 16 4 1 1 true).cells.length = 12 := by decide
+
 /-- non-vacuity of the wrapper theorems: the gemma-style pair (window 4 + full), 2 sequences × context 5,
     two 4-token prompts, then a 3-token batch the sliding-window cache accepts and the causal cache rejects -/
 example :
